@@ -209,7 +209,8 @@ func publishImpl(ctx context.Context, c *BaseClient, message *Message, dup bool)
 
 			pktPubRel := (&pktPubRel{ID: message.ID}).Pack()
 			if err := cli.write(pktPubRel); err != nil {
-				return wrapErrorWithRetry(err, retryPublish, "sending PUBREL")
+				// PUBLISH must not be re-sent after PUBREC is received. (MQTT 3.1.1 spec. 4.3.3)
+				return wrapErrorWithRetry(err, retryPublish2, "sending PUBREL")
 			}
 			select {
 			case <-cli.connClosed:
